@@ -59,6 +59,8 @@ type Conn struct {
 
 	nsub, npub int
 	bad        []string
+	closing    chan struct{}
+	dropped    int64
 }
 
 // ErrBadSubject mirrors nats.ErrBadSubject.
@@ -69,7 +71,7 @@ var ErrClosed = nats.ErrConnectionClosed
 
 // New creates a connection.
 func New() *Conn {
-	c := &Conn{}
+	c := &Conn{closing: make(chan struct{})}
 	c.cond = sync.NewCond(&c.lmu)
 	return c
 }
@@ -212,7 +214,9 @@ func (c *Conn) ChanQueueSubscribe(subject, queue string, ch chan *nats.Msg) (*na
 
 // Close implements res.Conn.
 func (c *Conn) Close() {
-	atomic.AddInt32(&c.closes, 1)
+	if atomic.AddInt32(&c.closes, 1) == 1 {
+		close(c.closing) // releases deliveries blocked on a full channel
+	}
 	c.dmu.Lock()
 	c.closed = true
 	c.dmu.Unlock()
@@ -257,11 +261,35 @@ func (c *Conn) Deliver(subject, reply string, data []byte) int {
 		targets = append(targets, ms[ms[0].rr%len(ms)])
 	}
 	c.lmu.Unlock()
+	n := 0
 	for _, s := range targets {
-		s.Ch <- &nats.Msg{Subject: subject, Reply: reply, Data: data, Sub: s.NSub}
+		m := &nats.Msg{Subject: subject, Reply: reply, Data: data, Sub: s.NSub}
+		select {
+		case s.Ch <- m:
+			n++
+			continue
+		default:
+		}
+		// The channel is full. Like a NATS client, block only for so long on a
+		// slow consumer: for ever (until Close) on the service's request
+		// channel, briefly on inbox subscriptions whose listener may be gone.
+		var giveUp <-chan time.Time
+		if strings.HasPrefix(s.Subject, "_INBOX.") {
+			giveUp = time.After(100 * time.Millisecond)
+		}
+		select {
+		case s.Ch <- m:
+			n++
+		case <-c.closing:
+		case <-giveUp:
+			atomic.AddInt64(&c.dropped, 1)
+		}
 	}
-	return len(targets)
+	return n
 }
+
+// Dropped returns the number of messages dropped on full inbox channels.
+func (c *Conn) Dropped() int64 { return atomic.LoadInt64(&c.dropped) }
 
 // Log returns a snapshot of the publish log.
 func (c *Conn) Log() []Msg {
